@@ -244,8 +244,33 @@ def ob_distinguishable_glue(n, with_probs):
     return Obligation("is_distinguishable.verdict_is_isclose_of_optimum_to_one", cfg, build, call, oracle, post=post, neg_control=False, tv=False)
 
 
+def returned_certificate_tasks(fn, name, tier):
+    """(value, measurements) returned for complex / real ensembles, min-error strategy, both formulations"""
+    from props.common import ReturnedCertificateTask
+    out = []
+    fam = [("3 complex qubit kets (normalised), prior (1/2,3/10,1/5)", [np.array([1, 0], dtype=complex), np.array([1, 1j]) / np.sqrt(2), np.array([1, np.exp(0.7j)]) / np.sqrt(2)], [0.5, 0.3, 0.2]),
+           ("2 real qubit kets (normalised), prior (2/5,3/5)", [np.array([1.0, 0.0]), np.array([1.0, 1.0]) / np.sqrt(2)], [0.4, 0.6]),
+           ("2 complex qutrit density matrices, uniform", None, [0.5, 0.5])]
+    rng = np.random.default_rng(33)
+    A = rng.normal(size=(3, 3)) + 1j * rng.normal(size=(3, 3))
+    B = rng.normal(size=(3, 2)) + 1j * rng.normal(size=(3, 2))
+    fam[2] = (fam[2][0], [A @ A.conj().T / np.trace(A @ A.conj().T).real, B @ B.conj().T / np.trace(B @ B.conj().T).real], [0.5, 0.5])
+    for nm, vs, ps in fam:
+        rhos = [rho_of(v) for v in vs]
+        for pd in ("primal", "dual"):
+            out.append(ReturnedCertificateTask(name, {"instance": nm, "strategy": "min_error", "primal_dual": pd},
+                                               (lambda vs=vs, ps=ps, pd=pd: fn([np.array(v) for v in vs], list(ps), strategy="min_error", primal_dual=pd)), rhos, ps))
+    return out
+
+
 def obligations(tier):
     obs = []
+    obs += returned_certificate_tasks(state_distinguishability, "state_distinguishability.returned_measurement_is_a_povm_attaining_the_returned_value", tier)
+    from props.c09 import DualityTask
+    for name, vs, ps in instances(tier):
+        obs.append(DualityTask("state_distinguishability.min_error_dual_is_lagrange_dual_of_primal", {"instance": name},
+                               (lambda vs=vs, ps=ps: state_distinguishability([np.array(v) for v in vs], ps, strategy="min_error", primal_dual="primal")),
+                               (lambda vs=vs, ps=ps: state_distinguishability([np.array(v) for v in vs], ps, strategy="min_error", primal_dual="dual"))))
     for n in (2, 3):
         for wp in (False, True):
             obs.append(ob_distinguishable_glue(n, wp))
